@@ -112,12 +112,16 @@ def job_chord_refinement(size, side, j, pieces=2, span=None):
     def body(A, inp):
         ri, rl, ei, el = inp['args']
         s1 = ev.call(dict(args=(ri.copy(), list(rl), ei.copy(), list(el)), kw={}))
+        # (the uncut call returned: the cut one must return as well)
         if side == 'ref':
             ri2, rl2 = cutn(ri, rl, inp['taus'])
-            s2 = ev.call(dict(args=(ri2, rl2, ei.copy(), list(el)), kw={}))
+            st, s2 = A.call(lambda: ev.call(dict(args=(ri2, rl2, ei.copy(), list(el)), kw={})))
         else:
             ei2, el2 = cutn(ei, el, inp['taus'])
-            s2 = ev.call(dict(args=(ri.copy(), list(rl), ei2, el2), kw={}))
+            st, s2 = A.call(lambda: ev.call(dict(args=(ri.copy(), list(rl), ei2, el2), kw={})))
+        A.require(st == 'ok', 'chord.evaluate:cut-annotation-is-still-scored', got=repr(s2)[:120] if st != 'ok' else None)
+        if st != 'ok':
+            return
         for k in s1:
             A.observe(k, s1[k])
             A.require(A.eq(s1[k], s2[k]), 'chord.evaluate[%s]:unchanged-by-cutting-an-interval' % k)
